@@ -46,9 +46,9 @@ def must_pass(fn, node, targets):
 
 class G:
     """One element of a MUST-GUARDS summary."""
-    __slots__ = ("kind", "fn", "block", "cond", "errs", "strength", "chain", "callee", "call_term", "line")
+    __slots__ = ("kind", "fn", "block", "cond", "errs", "strength", "chain", "callee", "call_term", "line", "via")
 
-    def __init__(self, kind, fn, block, cond=None, errs=(), strength="always", chain=(), callee=None, call_term=None):
+    def __init__(self, kind, fn, block, cond=None, errs=(), strength="always", chain=(), callee=None, call_term=None, via=()):
         self.kind = kind  # 'switch' | 'call'
         self.fn = fn
         self.block = block
@@ -58,6 +58,8 @@ class G:
         self.chain = tuple(chain)
         self.callee = callee
         self.call_term = call_term
+        # call sites through which this decision was inherited, innermost first: ((caller fn, [(block, call terminator), ...]), ...)
+        self.via = tuple(via)
         self.line = fn.line(block, "T")
 
     def loc(self):
@@ -143,11 +145,23 @@ def err_propagated(prog, fn, b, accept):
         if dl is None:
             continue
         sd = single_def(fn, dl)
-        if sd is None or sd[1] == "T":
+        if sd is None:
             continue
-        rv = sd[2]["rv"]
-        if rv["k"] != "discr" or rv["p"]["l"] not in cur:
-            continue
+        if sd[1] == "T":
+            # `if r.is_err() { return Err(..) }` / `if !r.is_ok() ..`: a boolean query of the (derived) result
+            ct = sd[2]
+            cn = callee_name(ct) or ""
+            if not cn.endswith(("Result::is_err", "Result::is_ok")) or not ct.get("args"):
+                continue
+            al = op_local(ct["args"][0])
+            from .flow import flow as _flow
+            refs = _flow(fn).ref_of.get(al, set()) | {al}
+            if not (refs & set(cur)):
+                continue
+        else:
+            rv = sd[2]["rv"]
+            if rv["k"] != "discr" or rv["p"]["l"] not in cur:
+                continue
         # a switch on the discriminant of the (derived) result
         edges = [tb for _, tb in t["targets"]] + [t["otherwise"]]
         rej = [tb for tb in edges if not (accept & reach(fn, [(tb, S)]))]
@@ -155,6 +169,16 @@ def err_propagated(prog, fn, b, accept):
             continue
         ok, _ = must_between(fn, [(b, T)], [(sb, T)], accept)
         if ok:
+            if mapped is None:
+                # the error the rejection is turned into: `match r { Err(_) => return Err(X) }`, `if r.is_err() { return Err(X) }`
+                vs = set()
+                for tb in rej:
+                    r_ = reach(fn, [(tb, S)])
+                    for e in exits(fn):
+                        if e.kind == "err" and e.node in r_ and e.variant and e.variant != "?":
+                            vs.add(e.variant)
+                if len(vs) == 1:
+                    mapped = vs.pop()
             return True, mapped
     return False, mapped
 
@@ -229,7 +253,8 @@ class MustGuards:
             for g in inherited:
                 st2 = g.strength if st == "always" else "per-iteration"
                 res.append(G(g.kind, g.fn, g.block, cond=g.cond, errs=g.errs, strength=st2,
-                             chain=g.chain + (fn.nname,), callee=g.callee, call_term=g.call_term))
+                             chain=g.chain + (fn.nname,), callee=g.callee, call_term=g.call_term,
+                             via=g.via + ((fn, [(b, t) for b, t, _ in props]),)))
         self.cache[fn.id] = res
         return res
 
